@@ -237,6 +237,26 @@ def iban_config_problems(files: dict, listing: list):
                               {k: exp.get(k) for k in bad}, {k: got.get(k) for k in bad}))
             else:
                 probs += api_checks(files, exp)
+                # ... and the effective table is still the merge after the library has been used
+                # (component reads, lookups and generation for every country, also those without
+                # published positions)
+                for code, spec in sorted(exp.items()):
+                    if not isinstance(spec, dict) or not isinstance(spec.get("bban_length"), int) \
+                            or not isinstance(spec.get("positions", {}), dict):
+                        continue
+                    body = "1" * spec["bban_length"]
+                    k, o = lib.outcome(lib.IBAN, code + "00" + body, allow_invalid=True)
+                    if k == "ok":
+                        for name in ("bank_code", "account_code", "bic", "bank", "national_checksum_digits"):
+                            lib.outcome(lambda: getattr(o, name))
+                        lib.outcome(o.validate, True)
+                    lib.outcome(lib.IBAN.generate, code, "1", "1")
+                    lib.outcome(lambda: lib.IBAN.random(code, random=__import__("random").Random(1)))
+                got2 = strip_regex(lib.registry.get("iban"))
+                if got2 != exp:
+                    bad = sorted(k for k in set(got2) | set(exp) if got2.get(k) != exp.get(k))[:4]
+                    probs.append(("effective country table changed by library calls",
+                                  {k: exp.get(k) for k in bad}, {k: got2.get(k) for k in bad}))
     except Exception as e:  # noqa: BLE001
         # the library's own initialisation may legitimately fail on nonsense such as positions=7
         if not isinstance(e, (AttributeError, TypeError, KeyError)) or "O_" not in " ".join(
